@@ -461,7 +461,7 @@ def stream_tag(ctx, drv, orc, n):
                                                   "spec": "tag terminates and reports the program"}})
             continue
         from paroxython.user_types import Label, Span
-        labels = [Label(n_, [Span(a, b) for a, b in sp]) for n_, sp in mlab["labels"]]
+        labels = [Label(n_, [Span(a, b, pth) for a, b, pth in sp]) for n_, sp in mlab["labels"]]
         taxa = taxonomy.to_taxa(labels)
         m = drv.call("c14.tag", source=raw, taxa=[[t.name, [c11.span3(s) for s in t.spans]] for t in taxa], **tables)
         model_labels = sorted(n_ for n_, _ in m["labels"])
